@@ -151,6 +151,10 @@ def rand_apps(rng, n=None):
         a = {"id": i, "ver": rng.choice(["1.2.3.4", "0.9", "10.0.0.1"]), "cohort": rand_cohort(rng)}
         if rng.random() < 0.3:
             a["uc"] = rng.choice([3, 500])
+        if rng.random() < 0.35:
+            # several extra fields: their order in the serialised body is up to the library, but the bytes kept for
+            # verification must still be the bytes sent
+            a["extra"] = {"x%d" % j: "v%d" % j for j in range(rng.choice([2, 5, 8]))}
         apps.append(a)
     return apps
 
